@@ -145,3 +145,143 @@ func TestVerifRace_Waiters(t *testing.T) {
 	r.Sample(map[string]any{"shape": "6 waiters (GetWatch/ListWatch/AllWatch) x 1 committer per round, delays injected at commit hook points", "rounds": rounds})
 	r.Finish()
 }
+
+// TestVerif_BulkTransactions: transactions that change thousands of objects at once (initial synchronisation, resynchronisation,
+// DeleteAll). For every object a GetWatch channel (primary index), a ListWatch channel of its own tag (non-unique index) and an
+// InsertWatch channel are retained beforehand; when the Commit of the bulk transaction has returned, every one of them must be closed
+// (c06r8-2: notification handed to a goroutine above a size threshold), and an aborted bulk transaction must close none.
+func TestVerif_BulkTransactions(t *testing.T) {
+	r := vkit.Start(t, "C06", "bulk", "exploration", "bulk write transactions over 3 000-20 000 objects of one table (update all, delete every second, DeleteAll, re-insert all; one aborted), with a GetWatch, a ListWatch(tag) "+
+		"and an InsertWatch channel retained per object: all closed when Commit has returned, none closed by the aborted transaction; non-trivial = at least 1 000 channels judged; distinct = (size, step)")
+	r.Require("channels_judged")
+	sizes := []int{3000, 5000, 9000}
+	if vkit.Tier() == "thorough" {
+		sizes = append(sizes, 20000, 70000)
+	}
+	closed := func(c <-chan struct{}) bool {
+		select {
+		case <-c:
+			return true
+		default:
+			return false
+		}
+	}
+	for si, n := range sizes {
+		db := statedb.New()
+		tb := concw.NewTables(db, "bulk", 1)[0]
+		type held struct {
+			what string
+			id   string
+			c    <-chan struct{}
+		}
+		var hs []held
+		judge := func(step string, mustClose bool) {
+			bad, total := 0, 0
+			first := ""
+			for _, h := range hs {
+				total++
+				if closed(h.c) != mustClose {
+					bad++
+					if first == "" {
+						first = h.what + " of " + h.id
+					}
+				}
+			}
+			r.Count("channels_judged", int64(total))
+			r.Case(vkit.NewHash().Str("bulk").Int(int64(n)).Str(step).Sum(), total >= 1000)
+			if bad > 0 {
+				key := "watch/not-closed/bulk"
+				msg := "still open when the Commit of the transaction that changed every watched object had returned"
+				if !mustClose {
+					key, msg = "watch/closed-by-abort/bulk", "closed although the transaction was aborted"
+				}
+				r.Violation(key, si, map[string]any{"message": fmt.Sprintf("%d objects, step %s: %d of %d retained channels %s (first: %s)", n, step, bad, total, msg, first)})
+			}
+			hs = hs[:0]
+		}
+		id := func(i int) string { return fmt.Sprintf("o%06d", i) }
+		// initial synchronisation, InsertWatch channels retained
+		w := db.WriteTxn(tb)
+		for i := 0; i < n; i++ {
+			_, _, c, _ := tb.InsertWatch(w, &concw.Row{ID: id(i), V: 0, Tag: "t" + id(i)})
+			hs = append(hs, held{"InsertWatch", id(i), c})
+		}
+		w.Commit()
+		hs = hs[:0] // (judged after the next change of each key, below)
+		retain := func() {
+			rt := db.ReadTxn()
+			for i := 0; i < n; i++ {
+				_, _, c, _ := tb.GetWatch(rt, concw.IDIndex.Query(id(i)))
+				hs = append(hs, held{"GetWatch", id(i), c})
+				if i%3 == 0 {
+					_, c2 := tb.ListWatch(rt, concw.TagIndex.Query("t"+id(i)))
+					hs = append(hs, held{"ListWatch(tag)", id(i), c2})
+				}
+			}
+		}
+		// aborted bulk update: nothing may close
+		retain()
+		w = db.WriteTxn(tb)
+		for i := 0; i < n; i++ {
+			tb.Insert(w, &concw.Row{ID: id(i), V: 1, Tag: "t" + id(i)})
+		}
+		w.Abort()
+		judge("aborted-update-all", false)
+		// update all (InsertWatch channels of the new versions retained for the next step)
+		retain()
+		var iw []held
+		w = db.WriteTxn(tb)
+		for i := 0; i < n; i++ {
+			_, _, c, _ := tb.InsertWatch(w, &concw.Row{ID: id(i), V: 2, Tag: "t" + id(i)})
+			iw = append(iw, held{"InsertWatch", id(i), c})
+		}
+		w.Commit()
+		judge("update-all", true)
+		// delete every second object
+		retain()
+		kept := hs[:0:0]
+		for _, h := range hs {
+			var k int
+			fmt.Sscanf(h.id, "o%d", &k)
+			if k%2 == 0 {
+				kept = append(kept, h)
+			}
+		}
+		hs = kept
+		for k, h := range iw {
+			if k%2 == 0 {
+				hs = append(hs, h)
+			}
+		}
+		w = db.WriteTxn(tb)
+		for i := 0; i < n; i += 2 {
+			tb.Delete(w, &concw.Row{ID: id(i)})
+		}
+		w.Commit()
+		judge("delete-every-second", true)
+		// DeleteAll of the rest
+		retain()
+		kept = hs[:0:0]
+		for _, h := range hs {
+			var k int
+			fmt.Sscanf(h.id, "o%d", &k)
+			if k%2 == 1 {
+				kept = append(kept, h)
+			}
+		}
+		hs = kept
+		w = db.WriteTxn(tb)
+		tb.DeleteAll(w)
+		w.Commit()
+		judge("delete-all", true)
+		// re-insert all: the channels of the absent keys
+		retain()
+		w = db.WriteTxn(tb)
+		for i := 0; i < n; i++ {
+			tb.Insert(w, &concw.Row{ID: id(i), V: 3, Tag: "t" + id(i)})
+		}
+		w.Commit()
+		judge("reinsert-all", true)
+	}
+	r.Finish()
+}
